@@ -593,6 +593,9 @@ def holdsC17Tick (sc : Json) (c : TickCtx) : List String := Id.run do
             if v != o + 1 then viol := viol ++ ["ooms_plus_one"]
           if (n == .killT || n == .killU) && !cfg.kernelKill then
             if v != o + nSig then viol := viol ++ ["kill_plus_signals"]
+          -- kernelkill whose cgroup.kill write did not succeed (or was never made): nothing was signalled, the counter stays
+          if (n == .killT || n == .killU) && cfg.kernelKill && !kernelOk then
+            if v != o then viol := viol ++ ["kill_plus_signals.nothing_signalled"]
         let _ := rc
       | _ => pure ()
     let count (p : Ev → Bool) : Nat := (s.evs.filter p).length
